@@ -14,6 +14,7 @@ Inductive abity :=
 (* how a Go expression turns a field of the stored object into an ABI argument *)
 Inductive conv :=
 | CI64      (* big.NewInt(int64(x))            x : uint64 *)
+| CU64      (* new(big.Int).SetUint64(x)       x : uint64 (not used by the current tree) *)
 | CBig      (* x.BigInt()                      x : sdkmath.Int *)
 | CAddr     (* gethcommon.HexToAddress(x)      x : string *)
 | CStr      (* x passed as is, ABI type address (gotron converts the base58 string) *)
